@@ -110,12 +110,12 @@ func addPointee(ms *ModSet, et types.Type) {
 func storeTargets(addr ssa.Value, ms *ModSet) {
 	switch a := addr.(type) {
 	case *ssa.Alloc:
-		if !a.Heap {
+		if !a.Heap || privateAlloc(a) {
 			return
 		}
 		addPointee(ms, a.Type().(*types.Pointer).Elem())
 	case *ssa.FieldAddr:
-		if ra := rootAlloc(a); ra != nil && !ra.Heap {
+		if ra := rootAlloc(a); ra != nil && (!ra.Heap || privateAlloc(ra)) {
 			return
 		}
 		// a field of a heap struct object, possibly nested by value
@@ -138,7 +138,7 @@ func storeTargets(addr ssa.Value, ms *ModSet) {
 		case *types.Slice:
 			ms.add(descElem(bt.Elem()))
 		case *types.Pointer:
-			if ra := rootAlloc(a); ra != nil && !ra.Heap {
+			if ra := rootAlloc(a); ra != nil && (!ra.Heap || privateAlloc(ra)) {
 				return
 			}
 			if fa, ok := a.X.(*ssa.FieldAddr); ok {
@@ -189,13 +189,7 @@ func (p *Program) callMods(cc *ssa.CallCommon, ms *ModSet) {
 		}
 		return
 	}
-	var callee *ssa.Function
-	switch v := cc.Value.(type) {
-	case *ssa.Function:
-		callee = v
-	case *ssa.MakeClosure:
-		callee = v.Fn.(*ssa.Function)
-	}
+	callee := resolveCallee(cc.Value)
 	if callee == nil {
 		ms.All = true
 		return
@@ -214,6 +208,41 @@ func (p *Program) callMods(cc *ssa.CallCommon, ms *ModSet) {
 	key := extKey(callee)
 	if callee.Origin() != nil {
 		key = extKey(callee.Origin())
+	}
+	switch key {
+	case "sort.Slice":
+		if mi, ok := cc.Args[0].(*ssa.MakeInterface); ok {
+			if sl, ok := mi.X.Type().Underlying().(*types.Slice); ok {
+				if lf := resolveCallee(cc.Args[1]); lf != nil {
+					if lm, ok := p.modsets[lf]; ok && !lm.All {
+						ro := true
+						for r := range lm.Regions {
+							if r != "$alloc" {
+								ro = false
+							}
+						}
+						if ro {
+							ms.add(descElem(sl.Elem()))
+							ms.add(descAlloc)
+							return
+						}
+					}
+				}
+			}
+		}
+		ms.All = true
+		return
+	case "slices.Sort":
+		if sl, ok := cc.Args[0].Type().Underlying().(*types.Slice); ok {
+			ms.add(descElem(sl.Elem()))
+		}
+		return
+	case "golang.org/x/exp/maps.Keys", "maps.Keys":
+		ms.add(descAlloc)
+		if sl, ok := cc.Signature().Results().At(0).Type().Underlying().(*types.Slice); ok {
+			ms.add(descElem(sl.Elem()))
+		}
+		return
 	}
 	if key == "io.ReadFull" {
 		ms.add(descElem(types.Typ[types.Uint8]))
@@ -269,7 +298,7 @@ func (p *Program) instrMods(c *Ctx, in ssa.Instruction, ms *ModSet, fn *ssa.Func
 	case *ssa.Go:
 		ms.All = true
 	case *ssa.Alloc:
-		if in.Heap {
+		if in.Heap && !privateAlloc(in) {
 			ms.add(descAlloc)
 			addPointee(ms, in.Type().(*types.Pointer).Elem())
 		}
@@ -326,4 +355,44 @@ func (p *Program) modSet(c *Ctx, fn *ssa.Function) *ModSet {
 	}
 	ms.register(c)
 	return ms
+}
+
+// resolveCallee finds the function a call value denotes when that is
+// syntactically evident: a function, a closure, or a local variable that is
+// assigned exactly once with one of those.
+func resolveCallee(v ssa.Value) *ssa.Function {
+	switch v := v.(type) {
+	case *ssa.Function:
+		return v
+	case *ssa.MakeClosure:
+		return v.Fn.(*ssa.Function)
+	case *ssa.UnOp:
+		a, ok := v.X.(*ssa.Alloc)
+		if !ok || a.Referrers() == nil {
+			return nil
+		}
+		var only *ssa.Function
+		n := 0
+		for _, r := range *a.Referrers() {
+			switch r := r.(type) {
+			case *ssa.Store:
+				if r.Addr != a {
+					return nil // address escapes
+				}
+				n++
+				only = resolveCallee(r.Val)
+			case *ssa.UnOp, *ssa.DebugRef:
+			case *ssa.MakeClosure:
+				// captured by another closure: still only assigned by stores we see
+				// in this function unless that closure assigns it; be conservative
+				return nil
+			default:
+				return nil
+			}
+		}
+		if n == 1 {
+			return only
+		}
+	}
+	return nil
 }
